@@ -208,7 +208,7 @@ func (x *Exec) assumeEnsures(s *State, fi *FuncInfo, recv *Value, args []*Value,
 		sc.bound[l.Tag] = x.evalSpec(s, l.Expr, sc)
 	}
 	for _, cl := range c.Clauses {
-		if cl.Kind == "ensures" {
+		if cl.Kind == "ensures" && !cl.Internal {
 			s.Assume(x.evalClause(s, cl, sc))
 		}
 	}
